@@ -23,7 +23,7 @@ type PairCase struct {
 	Opts string `json:"opts"`
 }
 
-var c01OptSets = []string{"list", "set", "mset", "setkeys:id", "setkeys:id,k", "merge", "set+merge", "mset+merge"}
+var c01OptSets = []string{"list", "set", "mset", "setkeys:id", "setkeys:id,k", "merge", "set+merge", "mset+merge", "set+mset", "mset+set", "setkeys:id+mset"}
 
 // profileFor returns a generator profile that respects the preconditions
 // of the option set (null-free for merge, complete unique keys for setkeys).
